@@ -1133,9 +1133,23 @@ def oracles_C09(ctx, hints):
     return fails
 
 # =========================================================================================== C15: BCD helpers
+def _tdf2_time_cases(ctx):
+    """PTP time stamps carried by time data format 2, every time-format code 0..15 (0 = NTP fraction, the others
+    carry the nanoseconds as they are), boundary seconds and nanoseconds"""
+    rng = ctx.rng
+    out = []
+    for code in range(16):
+        for sec in (0, 1, 2 ** 31, 2 ** 32 - 1, rng.boundary(32)):
+            for ns in (0, 1, 2, 499999999, 999999998, 999999999, rng.randrange(10 ** 9)):
+                out.append({"csd": (code << 4) | rng.choice([0, 1, 0xF]) | (rng.getrandbits(24) << 8), "seconds": sec, "nanoseconds": ns})
+    return out
+
 def corr_C15(ctx):
     lines = [gen.F("ch11.double_digits_to_bcd", str(v)) for v in range(0, 130)]
     lines += [gen.F("ch11.bcd_to_int", str(v)) for v in list(range(0, 256)) + [0x1970, 0x2099, 0x9999, 0xFFFF, -1]]
+    for c in _tdf2_time_cases(ctx)[:: 1 if ctx.tier == "thorough" else 3]:
+        f = {"channel_specific_data": str(c["csd"]), "seconds": str(c["seconds"]), "nanoseconds": str(c["nanoseconds"])}
+        lines.append(gen.H("TimeDataFormat2", gen.sets(f) + ["pack", "obs"]))
     return lines
 
 def check_bcd(args):
@@ -1156,7 +1170,17 @@ def oracles_C15(ctx, hints):
         if w:
             fails.append(Failure("ch11_bcd", {"v": v}, w, {"class": "TimeDataFormat", "check": "bcd_inverse"}))
             break
-    ctx.count("oracle_evaluations", 100)
+    cases = [("tdf2", c) for c in _tdf2_time_cases(ctx)]
+    _prefetch_specs(cases)
+    for name, args in cases:                                  # PTP time stamps survive pack/unpack in format 2
+        r = _guard(check_tdf2)(args)
+        if r:
+            what, tags = r
+            t = {"class": "TimeDataFormat2"}
+            t.update(tags)
+            fails.append(Failure("ch11_tdf2", args, what, t))
+            break
+    ctx.count("oracle_evaluations", 100 + len(cases))
     return fails
 
 # =========================================================================================== C17: PCM size from two sync words
